@@ -165,9 +165,16 @@ func (w *under) headers() http.Header {
 
 type underRF struct{ *under }
 
+// ReadFrom behaves like net/http's response.ReadFrom: the implicit 200 is only sent when there is something to send
+// (an empty source writes nothing at all, not even a header).
 func (w underRF) ReadFrom(r io.Reader) (int64, error) {
-	w.setFinal(http.StatusOK)
-	return w.body.ReadFrom(r)
+	var tmp bytes.Buffer
+	n, err := tmp.ReadFrom(r)
+	if n > 0 {
+		w.setFinal(http.StatusOK)
+		w.body.Write(tmp.Bytes())
+	}
+	return n, err
 }
 
 // ---------------------------------------------------------------- capturing slog handler
